@@ -245,6 +245,16 @@ def set_meta(rnd, mod, spec, depth):
                 setattr(mod, name, rnd.random() < 0.5)
         except Exception:
             pass
+    # afterwards the embedded targets may be edited directly: the stored user-controller value and the target's value differ
+    if rnd.random() < 0.4:
+        for tm in [m for m in emb.modules[1:] if m is not None][:3]:
+            st = spec.get(tm.mtype)
+            for c in (st["ctls"] if st else []):
+                if c["kind"] == "range" and rnd.random() < 0.5 and not (tm.mtype == "SpectraVoice" and c["name"].startswith("h")):
+                    try:
+                        tm.controller_values[c["name"]] = rnd.randint(c["min"], c["max"])
+                    except Exception:
+                        pass
     from rv.cmidmap import MidiMessageType
     for i in range(n):
         if rnd.random() < 0.2:
@@ -309,6 +319,7 @@ def rand_project(rnd, spec, nmods=None, depth=1, allow_meta=True, small=False, t
     p.selected_module, p.selected_generator = u32(rnd), i32(rnd)
     p.current_pattern, p.current_track, p.current_line = u32(rnd), u32(rnd), u32(rnd)
     p.receive_sync_midi, p.receive_sync_other = rnd.randrange(8), rnd.randrange(8)
+    p.based_on_version = rnd.choice([(2, 1, 2, 1), (2, 1, 2, 1), (1, 9, 4, 2), (1, 7, 0, 0), (2, 0, 0, 0), (1, 9, 5, 0)])
     if nmods is None:
         nmods = rnd.randrange(0, 4 if small else 9)
     for k in range(nmods):
